@@ -21,6 +21,8 @@ SIMPL = "impl<'e, T, D> Storage<'e, T, D>"
 def build():
     u = _alloc.build()
     u.name = 'storage'
+    # N10 (unit-wide): core::mem::take on a BitSet field -> the prelude's take_bitset stub (same contract: returns the old set, leaves the empty default)
+    u.global_rules = u.global_rules + [('N10', r'core::mem::take\(&mut ([\w\.]+)\)', r'take_bitset(&mut \1)')]
     u.prelude = u.prelude + [('prelude/shred_fetch.rs', 'private')]
     # the history-level trace lemmas are checked in units alloc/world; the storage layer only needs the per-function contracts
     u.spec = [x for x in u.spec if x != 'alloc/spec_trace.rs'] + ['storage/spec.rs']
@@ -52,7 +54,6 @@ def build():
          ensures=[E('mask', '*r.0 == old(self).mask'), E('inner', '*r.1 == old(self).inner'),
                   E('final', 'final(self).mask == old(self).mask && final(self).inner == *final(r.1)')])
     u.fn(S, [MIMPL, 'fn clear'], props='C04',
-         rules=[('N10', r'core::mem::take\(&mut self\.mask\)', 'take_bitset(&mut self.mask)')],
          requires=[E('wf', 'old(self).wf()')],
          ensures=[E('wf', 'final(self).wf()'), E('map', 'final(self)@ == Map::<Index, T>::empty()'),
                   E('events', 'final(self).log() == old(self).log()', 'C12'),
